@@ -11,6 +11,10 @@ from . import facts, model, analysis, anchor
 VERIF = facts.VERIF
 
 
+# development runs against a scratch tree (VERIF_REPO) never touch the registered evidence files
+EVDIR = os.path.join(VERIF, "evidence") if not os.environ.get("VERIF_REPO") else os.path.join(VERIF, ".work", "evidence-scratch")
+
+
 class AnchorMissing(Exception):
     pass
 
@@ -148,7 +152,7 @@ def run_property(pid, tier, replay=None):
         uviol.append(v)
     new = [v for v in uviol if (v["rule"], v["construct"]) not in kkeys]
     kn = [v for v in uviol if (v["rule"], v["construct"]) in kkeys]
-    vdir = os.path.join(VERIF, "evidence", pid + ".violations")
+    vdir = os.path.join(EVDIR, pid + ".violations")
     if os.path.isdir(vdir):
         for f in os.listdir(vdir):
             os.unlink(os.path.join(vdir, f))
@@ -196,11 +200,11 @@ def run_property(pid, tier, replay=None):
         "known_findings": [{"rule": v["rule"], "construct": v["construct"]} for v in kn],
         "violation_list": [{k: v.get(k) for k in ("rule", "construct", "expected", "found", "loc", "reason")} for v in new],
     }
-    os.makedirs(os.path.join(VERIF, "evidence"), exist_ok=True)
-    tmp = os.path.join(VERIF, "evidence", pid + ".json.tmp%d" % os.getpid())
+    os.makedirs(EVDIR, exist_ok=True)
+    tmp = os.path.join(EVDIR, pid + ".json.tmp%d" % os.getpid())
     with open(tmp, "w") as fh:
         json.dump(ev, fh, indent=1, default=str)
-    os.replace(tmp, os.path.join(VERIF, "evidence", pid + ".json"))
+    os.replace(tmp, os.path.join(EVDIR, pid + ".json"))
     print("%s: %d instances, %d passed, %d undecided, %d known, %d violations (%.1fs)" % (pid, len(all_inst), len(passed), len(und), len(kn), len(new), time.time() - t0))
     return 1 if new else 0
 
